@@ -160,7 +160,10 @@ func VerifH_C02_Paths() {
 	text := sb.String()
 	// a comparison with a multi-valued leaf before or after the path: state of one
 	// sub-expression must not leak into the evaluation of the other
-	prelude := vrt.Choice("around", 3)
+	prelude := 0
+	if vrt.Param("around", 1) == 1 {
+		prelude = vrt.Choice("around", 3)
+	}
 	pathOnly := text
 	switch prelude {
 	case 1:
